@@ -206,7 +206,12 @@ def check_position(r, ctx):
         must, may = set(), set()
         for lid, ring in rings.items():
             inside, d = geom.point_in_polygon(p, ring)
-            if d < 1e-9 * scale + (1e-4 if r["route"] in ("xml", "pb") and False else 0):
+            if any(p[0] == v[0] and p[1] == v[1] for v in ring):
+                # bit-for-bit a vertex of this lanelet's polygon: no rounding is involved and the polygon (a closed
+                # set; "interior or boundary" in the shapes' documentation) contains it
+                must.add(lid)
+                ctx.label("exact-vertex-query")
+            elif d < 1e-9 * scale:
                 may.add(lid)
                 ctx.band_case()
             elif inside:
